@@ -6,6 +6,7 @@ From CP Require Import Core.Bytes Core.Result Prim.Int Base.Enum Frame.LVFrame F
 From CP Require Import Spec.Registry Lemmas.RegistryTls.
 From CPGen Require Import Tables.
 From CP Require Import Lemmas.IntLemmas Lemmas.PLLemmas Lemmas.TlsSpecLemmas Lemmas.TlsBoundsLemmas.
+From CP Require Import Lemmas.PLInverse.
 Open Scope Z_scope.
 
 (* model = specification, for all field values *)
@@ -71,3 +72,12 @@ Proof. exact dec_enc_server_hello. Qed.
 Theorem C06_spec_hello_retry_request_roundtrip : forall h b s, sh_ok h -> enc_hello_retry_request h = Some b ->
   dec_server_hello_typed 6 (b ++ s) = Some (h, s).
 Proof. exact dec_enc_hello_retry_request. Qed.
+
+(* the converse: the vectors of the presentation language have one spelling only - whatever the decoders accept is exactly
+   what the encoders write for the value returned, followed by what was left (for every buffer) *)
+Theorem C06_opaque_one_encoding : forall lo hi b d r, dec_opaque lo hi b = Some (d, r) ->
+  exists e, enc_opaque lo hi d = Some e /\ b = e ++ r.
+Proof. exact dec_opaque_inv. Qed.
+Theorem C06_uint_vec_one_encoding : forall w lo hi b l r, (0 < w)%nat -> dec_uint_vec w lo hi b = Some (l, r) ->
+  exists e, enc_uint_vec w lo hi l = Some e /\ b = e ++ r /\ Forall (fun z => 0 <= z < 256 ^ Z.of_nat w) l.
+Proof. exact dec_uint_vec_inv. Qed.
